@@ -42,6 +42,7 @@ class Factory(object):
 
     def char(self, name):
         v = self.str(name)
+        v.nonempty = True
         self.ctx.assume(z3.Length(v.z) == 1)
         return v
 
